@@ -30,7 +30,9 @@ R2  1 (constructions of BeaconConfig from `<candidate>.unmasked_beacon_config`; 
     hold in the loop body, resp. where the `next` result is known not to be the default), 5 (the finite set of spellings
     of "truthy": `x`, `bool(x)`, `x is not None`, `x != b""`, `len(x) > 0` ...; of "absent": `x is None`, `not x`).
 R3  6 (GuardOption members and the marker table compared completely with the reference tables; the reference markers are
-    the checker's own serialisation of (option, type, length) by the C definition *parsed* from the source), 1/3 (checksum
+    the checker's own serialisation of (option, type, length) by the C definition *parsed* from the source; the marker
+    table is the folded value of the module-level constant - a literal, or a table generated at import time from other
+    constants and members of the parsed C enums, see "Constant tables" below; not foldable -> undecided), 1/3 (checksum
     argument of the constructor followed through copies to its decoding call; `utils.unpack` / `int.from_bytes`
     arguments through bind_args), 2 (the option test dominates the decoding), 5 (the option is compared with the enum
     member, its value or its name - vocabulary of the parsed enum).
@@ -57,7 +59,25 @@ R5  1 (the variable bound to grouper's `n`, reads of the candidate stream, most_
     Lemmas: [byte-mask], [progression-table], [mod-accumulate], [range-closed-form], [enumerate-index],
     assumption [default-buffer-size].
 R6  engine: effects.check_escape (1, 2, 4: escape analysis with interval facts, trusted base of C08) and
-    loops.analyse_loop (2: every cycle of the loop passes a progress statement).
+    loops.analyse_loop (2: every cycle of the loop passes a progress statement).  One length fact is added to the escape
+    analysis (6): a module-level container constant that the function neither takes as parameter nor assigns has the length
+    of its folded value (the engine itself reads literal tables and unfiltered comprehensions over them only).
+
+Constant tables (device 6, class _ModEnv; used by R3, R4, R5, R6 wherever a module constant is read)
+    A module-level constant is folded from the module-level statements that bind it, in statement order (an expression of
+    statement i sees the bindings before i; functions see the last): literals and arithmetic as in the engine's
+    const_eval, plus - on constants of the analysed code only, never on data chosen by the checker -
+    members of the C enums of the *parsed* cstruct definition (`E.M`, `E["M"]`, `E(v)`, `.value`, `.name`, iteration over
+    `E`: 5, finite vocabulary from the analysed code), comprehensions over constant iterables (the finite constant table
+    they denote: folding of a module-level constant table, not a loop over checker-chosen input), conditional / boolean /
+    comparison expressions on constants, `zip` / `enumerate` / `range` / `sorted` / `dict` views of constants, and the
+    standard-library byte serialisers `struct.pack`, `struct.Struct(..).pack`, `int.to_bytes`, `bytes(..)`,
+    `b"".join(..)` applied to constants (CPython's own implementation of that library function, exactly as `len` and
+    slicing are folded by const_eval).  `X += E`, `X.append(E)`, `X.extend(E)` at module level - also as the single
+    statement of a `for T in S` loop over a constant S - are read as the rebinding they are equal to
+    ([append-is-concat], [append-loop-is-comprehension]).  Not folded (-> the consuming obligation is undecided): tables
+    built by package helpers (their bodies would have to be interpreted), containers bound or mutated in nested blocks /
+    by other methods / through subscripts, generator objects, anything over the size cap.
 
 Lemmas (each used as a rewrite on terms, never checked by trying values)
 [xor-len]            len(utils.xor(data, key)) == len(data): the helper combines each byte of `data` with the cycled `key`
@@ -78,6 +98,11 @@ Lemmas (each used as a rewrite on terms, never checked by trying values)
                      parse j+1 requires c0 + j <= B.  `count != K` (K >= c0 an integer) equals `count < K` when at most one
                      increment lies between two passes of e (the count cannot step over K).
 [default-buffer-size] io.DEFAULT_BUFFER_SIZE == 8192 (CPython constant; named assumption).
+[append-is-concat]   for a list X: after `X.append(E)` X equals old X + [E]; after `X.extend(E)` / `X += E` it equals old X + [*E]
+                     (bytes: X + E).  Only used for module-level statements; aliases are not followed (a second name for
+                     the table is a different constant).
+[append-loop-is-comprehension] `for T in S: X.append(E)` leaves X == old X + [E for T in S] when neither S, T nor E mention X
+                     and the loop has no other statement and no else.
 """
 
 from __future__ import annotations
@@ -88,7 +113,7 @@ import copy
 from csverif import cdefs as cdefs_mod, effects, loops, tables
 from csverif.absint import SymPoly, sympoly
 from csverif.astutil import (
-    assignments_to, bind_args, conjuncts, const_eval, dotted, fn_calls, module_env, nnf, NotConst, params, src,
+    assignments_to, bind_args, conjuncts, const_eval, dotted, fn_calls, nnf, NotConst, params, src,
     statements, strip_cast,
 )
 from csverif.cfg import ENTRY, EXIT, RAISE
@@ -101,10 +126,514 @@ KEY_LENGTHS = (2, 256)
 
 
 def _c(node, env=None):
+    if node is None:
+        return None
+    fold = getattr(env, "fold", None)
+    if fold is not None:
+        return fold(node)
     try:
-        return const_eval(node, env) if node is not None else None
+        return const_eval(node, env)
     except (NotConst, TypeError, KeyError):
         return None
+
+
+# ============================================================================== folding of generated constant tables
+class _Member(int):
+    """A member of a C enum of the parsed definitions: its integer value, with `.name` / `.value` of the enum protocol
+    (dissect.cstruct enums are IntEnum-like: a member packs / compares / indexes as its value)."""
+
+    def __new__(cls, value, enum, name):
+        m = int.__new__(cls, value)
+        m.enum, m.mname = enum, name
+        return m
+
+    def __repr__(self):
+        return f"{self.enum}.{self.mname}"
+
+
+def _no_names(name):
+    raise KeyError(name)
+
+
+_MUTATORS = ("append", "extend", "insert", "remove", "pop", "clear", "sort", "reverse", "add", "discard", "update", "setdefault", "popitem")
+_FOLD_LIMIT = 1 << 14
+
+
+class _ModEnv:
+    """Constant environment of a module (device 6: constant folding of constant expressions and of module-level constant
+    tables) that also folds tables *generated* at import time from other constants.  On top of csverif.astutil.const_eval
+    it folds, on constants only and never on data chosen by the checker:
+
+      * members of the C enums of the module's parsed cstruct definitions (`E.M`, `E["M"]`, `E(v)`, `.value`, `.name`,
+        iteration over `E`) - an abstract member is its integer value (_Member);
+      * comprehensions / generator arguments over constant iterables (tuple targets, constant filters), conditional
+        expressions, comparisons and boolean operators on constants, `zip` / `enumerate` / `range` / `sorted` / `reversed`
+        / `dict` views of constants;
+      * the byte serialisers of the standard library on constant arguments: `struct.pack(fmt, ..)`, `struct.Struct(fmt)
+        .pack(..)`, `int.to_bytes`, `bytes(..)`, `b"".join(..)` - evaluated with CPython's own implementation of exactly
+        that library function (like `len` / slicing in const_eval), not with code of /repo.
+
+    A container constant that is rebound or mutated by other module-level statements is not a constant table (KeyError ->
+    the consumer is undecided); so is anything built by /repo helpers (they would have to be interpreted)."""
+
+    def __init__(self, ctx, mod):
+        self.mod = mod
+        try:
+            self.cds = ctx.cdefs(mod.name)
+        except Exception:  # definitions the C parser cannot resolve: no enum vocabulary, everything else still folds
+            self.cds = {}
+        self._memo, self._busy, self._steps = {}, set(), 0
+        self.imports = {}
+        for st in ast.walk(mod.tree):
+            if isinstance(st, ast.Import):
+                for a in st.names:
+                    self.imports[a.asname or a.name.split(".")[0]] = a.name if a.asname else a.name.split(".")[0]
+            elif isinstance(st, ast.ImportFrom) and st.module and not st.level:
+                for a in st.names:
+                    self.imports[a.asname or a.name] = f"{st.module}.{a.name}"
+        # module-level bindings in statement order: name -> [(statement index, expression)]; an expression of statement i
+        # sees the bindings of the statements before i, code in functions sees the last ones
+        self.binds, accounted = {}, set()
+        for i, st in enumerate(mod.tree.body):
+            rb = self._rebinding(st)
+            if rb is not None:
+                self.binds.setdefault(rb[0], []).append((i, rb[1]))
+                accounted.add(id(st))
+        self._end = len(mod.tree.body)
+        self._pos = self._end
+        self._unstable = self._unstable_names(accounted)
+
+    # ---- module-level statements that (re)bind a constant, as expressions over the previous binding
+    @staticmethod
+    def _grow(st, name=None):
+        """(X, kind, E) for the statements `X.append(E)` / `X.extend(E)` / `X += E`"""
+        if isinstance(st, ast.Expr) and isinstance(st.value, ast.Call) and isinstance(st.value.func, ast.Attribute) and st.value.func.attr in ("append", "extend") \
+                and isinstance(st.value.func.value, ast.Name) and len(st.value.args) == 1 and not st.value.keywords and not isinstance(st.value.args[0], ast.Starred):
+            return st.value.func.value.id, st.value.func.attr, st.value.args[0]
+        if isinstance(st, ast.AugAssign) and isinstance(st.target, ast.Name) and isinstance(st.op, ast.Add):
+            return st.target.id, "extend", st.value
+        return None
+
+    def _rebinding(self, st):
+        """(name, expression of the new value) for a module-level statement that binds `name`.  Rewrites, each an identity
+        of the list / bytes operations: X.append(E) == (X := X + [E]); X.extend(E) and X += E == (X := X + [*E]) for a list
+        X (X + E for bytes); `for T in S: X.append(E)` == (X := X + [E for T in S]) when S and E do not mention X."""
+        if isinstance(st, ast.Assign) and len(st.targets) == 1 and isinstance(st.targets[0], ast.Name):
+            return st.targets[0].id, st.value
+        if isinstance(st, ast.AnnAssign) and isinstance(st.target, ast.Name) and st.value is not None:
+            return st.target.id, st.value
+        L = ast.Load()
+        if isinstance(st, ast.AugAssign) and isinstance(st.target, ast.Name):
+            return st.target.id, ast.BinOp(left=ast.Name(id=st.target.id, ctx=L), op=st.op, right=st.value)
+        g = self._grow(st)
+        if g is not None:
+            x, kind, e = g
+            more = ast.List(elts=[e] if kind == "append" else [ast.Starred(value=e, ctx=L)], ctx=L)
+            return x, ast.BinOp(left=ast.Name(id=x, ctx=L), op=ast.Add(), right=more)
+        if isinstance(st, ast.For) and not st.orelse and len(st.body) == 1:
+            g = self._grow(st.body[0])
+            if g is not None:
+                x, kind, e = g
+                if any(isinstance(n, ast.Name) and n.id == x for part in (st.iter, st.target, e) for n in ast.walk(part)):
+                    return None
+                gens = [ast.comprehension(target=st.target, iter=st.iter, ifs=[], is_async=0)]
+                elt = e
+                if kind == "extend":
+                    elt = ast.Name(id="<element>", ctx=L)
+                    gens.append(ast.comprehension(target=ast.Name(id="<element>", ctx=ast.Store()), iter=e, ifs=[], is_async=0))
+                return x, ast.BinOp(left=ast.Name(id=x, ctx=L), op=ast.Add(), right=ast.ListComp(elt=elt, generators=gens))
+        return None
+
+    # ---- environment protocol of const_eval
+    def __call__(self, name):
+        bs = self.binds.get(name)
+        k = max((j for j, (i, _e) in enumerate(bs) if i < self._pos), default=None) if bs else None
+        if k is None:
+            raise KeyError(name)
+        if (name, k) in self._memo:
+            return self._memo[name, k]
+        if (name, k) in self._busy:
+            raise KeyError(name)
+        if not self._busy:
+            self._steps = 0
+        self._busy.add((name, k))
+        pos, self._pos = self._pos, bs[k][0]
+        try:
+            v = self._ev(bs[k][1], {})
+        except NotConst:
+            raise KeyError(name)
+        finally:
+            self._pos = pos
+            self._busy.discard((name, k))
+        if isinstance(v, (list, dict, set, bytearray)) and name in self._unstable:
+            raise KeyError(name)
+        self._memo[name, k] = v
+        return v
+
+    def fold(self, node):
+        """value of a constant expression of the module (as seen by code in functions), None if it is not one"""
+        try:
+            if not self._busy:
+                self._steps = 0
+            return self._ev(node, {})
+        except (NotConst, KeyError):
+            return None
+
+    def _unstable_names(self, accounted):
+        """module-level names bound or mutated by module-level statements other than the rebinding forms above (in nested
+        blocks, loops, by other methods, through subscripts / attributes): their value is not followed"""
+        out = set()
+
+        def walk(n):
+            for ch in ast.iter_child_nodes(n):
+                if isinstance(ch, (ast.FunctionDef, ast.AsyncFunctionDef, ast.Lambda)) or id(ch) in accounted:
+                    continue
+                if isinstance(ch, (ast.ListComp, ast.SetComp, ast.DictComp, ast.GeneratorExp)):
+                    continue  # own scope
+                if isinstance(ch, ast.Name) and isinstance(ch.ctx, (ast.Store, ast.Del)):
+                    out.add(ch.id)
+                if isinstance(ch, (ast.Subscript, ast.Attribute)) and isinstance(ch.ctx, (ast.Store, ast.Del)) and isinstance(ch.value, ast.Name):
+                    out.add(ch.value.id)
+                if isinstance(ch, ast.Call) and isinstance(ch.func, ast.Attribute) and ch.func.attr in _MUTATORS and isinstance(ch.func.value, ast.Name):
+                    out.add(ch.func.value.id)
+                if not isinstance(ch, ast.ClassDef):
+                    walk(ch)
+
+        walk(self.mod.tree)
+        return out
+
+    # ---- the vocabulary of the parsed C enums
+    def _enum_of(self, node):
+        """(python-visible enum name, [(member, value)]) if `node` denotes an enum type of the parsed definitions"""
+        once = lambda n: len(self.binds.get(n, ())) == 1 and n not in self._unstable
+        if isinstance(node, ast.Name) and once(node.id):
+            node = self.binds[node.id][0][1]
+        if isinstance(node, ast.Attribute) and isinstance(node.value, ast.Name) and node.value.id in self.cds and once(node.value.id):
+            cd = self.cds[node.value.id]
+            if node.attr in cd.enums:
+                return node.attr, list(cd.enums[node.attr].members)
+        return None
+
+    @staticmethod
+    def _member(en, name=None, value=None):
+        ename, members = en
+        for n, v in members:
+            if (name is not None and n == name) or (name is None and v == value):
+                return _Member(v, ename, n)
+        raise NotConst(f"{ename}: no member {name if name is not None else value}")
+
+    # ---- evaluation
+    def _tick(self, n=1):
+        self._steps += n
+        if self._steps > _FOLD_LIMIT * 16:
+            raise NotConst("table too large to fold")
+
+    def _ev(self, node, loc):
+        try:
+            return self._ev1(node, loc)
+        except (NotConst, KeyError) as e:
+            raise NotConst(str(e))
+        except RecursionError:
+            raise
+        except Exception as e:  # TypeError / ValueError / struct.error / IndexError ... of the folded operation
+            raise NotConst(f"{src(node)[:60]}: {e}")
+
+    def _seq(self, node, loc):
+        """the values a constant iterable yields, in order"""
+        if isinstance(node, ast.GeneratorExp):
+            return self._comp(node, loc)
+        en = self._enum_of(node) if not (isinstance(node, ast.Name) and node.id in loc) else None
+        if en is not None:
+            seen, out = set(), []
+            for n, v in en[1]:  # aliases (repeated values) are not iterated, like enum.Enum
+                if v not in seen:
+                    seen.add(v)
+                    out.append(_Member(v, en[0], n))
+            return out
+        v = self._ev(node, loc)
+        if isinstance(v, (list, tuple, bytes, bytearray, str, range)):
+            if len(v) > _FOLD_LIMIT:
+                raise NotConst("iterable too large to fold")
+            return list(v)
+        if isinstance(v, dict):
+            return list(v)
+        if isinstance(v, (set, frozenset)):
+            raise NotConst("iteration order of a set")
+        raise NotConst(f"not iterable: {src(node)[:40]}")
+
+    def _bind(self, target, value, loc):
+        if isinstance(target, ast.Name):
+            loc[target.id] = value
+        elif isinstance(target, (ast.Tuple, ast.List)) and not any(isinstance(t, ast.Starred) for t in target.elts):
+            vals = list(value) if isinstance(value, (list, tuple, bytes, str)) else None
+            if vals is None or len(vals) != len(target.elts):
+                raise NotConst("unpacking")
+            for t, v in zip(target.elts, vals):
+                self._bind(t, v, loc)
+        else:
+            raise NotConst("comprehension target")
+
+    def _comp(self, node, loc):
+        """elements (key/value pairs for a dict comprehension) of a comprehension over constant iterables"""
+        out = []
+
+        def rec(i, loc):
+            if i == len(node.generators):
+                self._tick()
+                out.append((self._ev(node.key, loc), self._ev(node.value, loc)) if isinstance(node, ast.DictComp) else self._ev(node.elt, loc))
+                return
+            g = node.generators[i]
+            if g.is_async:
+                raise NotConst("async comprehension")
+            for v in self._seq(g.iter, loc):
+                self._tick()
+                inner = dict(loc)
+                self._bind(g.target, v, inner)
+                if all(self._ev(c, inner) for c in g.ifs):
+                    rec(i + 1, inner)
+
+        rec(0, loc)
+        return out
+
+    def _args(self, call, loc):
+        out = []
+        for a in call.args:
+            if isinstance(a, ast.Starred):
+                out.extend(self._seq(a.value, loc))
+            else:
+                out.append(self._ev(a, loc))
+        kw = {}
+        for k in call.keywords:
+            if k.arg is None:
+                raise NotConst("**kwargs")
+            kw[k.arg] = self._ev(k.value, loc)
+        return out, kw
+
+    def _callee(self, func, loc):
+        """dotted name of a called library function with import aliases resolved (`from struct import pack as p` ->
+        struct.pack); None if the first component is a local / module-level binding"""
+        d = dotted(func)
+        if d is None:
+            return None
+        head, _, rest = d.partition(".")
+        if head in loc or head in self.binds or head in self.mod.funcs or head in self.mod.classes:
+            return None
+        if head in self.imports:
+            return self.imports[head] + ("." + rest if rest else "")
+        return d
+
+    _CMP = {
+        ast.Eq: lambda a, b: a == b, ast.NotEq: lambda a, b: a != b, ast.Lt: lambda a, b: a < b, ast.LtE: lambda a, b: a <= b,
+        ast.Gt: lambda a, b: a > b, ast.GtE: lambda a, b: a >= b, ast.In: lambda a, b: a in b, ast.NotIn: lambda a, b: a not in b,
+    }
+
+    def _ev1(self, node, loc):
+        import struct as _struct
+
+        self._tick()
+        if isinstance(node, ast.Constant):
+            return node.value
+        if isinstance(node, ast.Name):
+            if node.id in loc:
+                return loc[node.id]
+            return self(node.id)
+        if isinstance(node, (ast.ListComp, ast.SetComp, ast.DictComp)):
+            items = self._comp(node, loc)
+            return list(items) if isinstance(node, ast.ListComp) else set(items) if isinstance(node, ast.SetComp) else dict(items)
+        if isinstance(node, ast.GeneratorExp):
+            raise NotConst("a generator object is not a constant table")
+        if isinstance(node, ast.IfExp):
+            return self._ev(node.body if self._ev(node.test, loc) else node.orelse, loc)
+        if isinstance(node, ast.BoolOp):
+            v = None
+            for x in node.values:
+                v = self._ev(x, loc)
+                if bool(v) != isinstance(node.op, ast.And):
+                    return v
+            return v
+        if isinstance(node, ast.UnaryOp) and isinstance(node.op, ast.Not):
+            return not self._ev(node.operand, loc)
+        if isinstance(node, ast.Compare):
+            left = self._ev(node.left, loc)
+            for op, r in zip(node.ops, node.comparators):
+                right = self._ev(r, loc)
+                if isinstance(op, (ast.Is, ast.IsNot)):
+                    if left is not None and right is not None and not (isinstance(left, _Member) and isinstance(right, _Member)):
+                        raise NotConst("identity of constants")
+                    res = (left == right and type(left) is type(right)) == isinstance(op, ast.Is)
+                elif type(op) in self._CMP:
+                    res = self._CMP[type(op)](left, right)
+                else:
+                    raise NotConst("comparison")
+                if not res:
+                    return False
+                left = right
+            return True
+        if isinstance(node, ast.Attribute):
+            en = self._enum_of(node.value) if not (isinstance(node.value, ast.Name) and node.value.id in loc) else None
+            if en is not None:
+                return self._member(en, name=node.attr)
+            base = self._ev(node.value, loc)
+            if isinstance(base, _Member) and node.attr == "value":
+                return int(base)
+            if isinstance(base, _Member) and node.attr == "name":
+                return base.mname
+            raise NotConst(src(node)[:60])
+        if isinstance(node, ast.Subscript) and not isinstance(node.slice, ast.Slice):
+            en = self._enum_of(node.value) if not (isinstance(node.value, ast.Name) and node.value.id in loc) else None
+            if en is not None:
+                k = self._ev(node.slice, loc)
+                if not isinstance(k, str):
+                    raise NotConst("enum subscript")
+                return self._member(en, name=k)
+        if isinstance(node, ast.Call):
+            en = self._enum_of(node.func) if not (isinstance(node.func, ast.Name) and node.func.id in loc) else None
+            if en is not None:
+                args, kw = self._args(node, loc)
+                if len(args) != 1 or kw or not isinstance(args[0], int):
+                    raise NotConst("enum call")
+                return self._member(en, value=int(args[0]))
+            fn = node.func
+            # methods on folded receivers
+            if isinstance(fn, ast.Attribute):
+                if fn.attr == "pack" and isinstance(fn.value, ast.Call) and self._callee(fn.value.func, loc) == "struct.Struct":
+                    fa, fk = self._args(fn.value, loc)
+                    args, kw = self._args(node, loc)
+                    if len(fa) == 1 and not fk and not kw and isinstance(fa[0], (str, bytes)):
+                        return _struct.pack(fa[0], *args)
+                    raise NotConst("struct.Struct")
+                if fn.attr in ("to_bytes", "join", "items", "keys", "values", "get") and self._callee(fn, loc) not in ("int.to_bytes",):
+                    recv = self._ev(fn.value, loc)
+                    if fn.attr == "join":
+                        if isinstance(recv, (bytes, str)) and len(node.args) == 1 and not node.keywords and not isinstance(node.args[0], ast.Starred):
+                            return recv.join(self._seq(node.args[0], loc))
+                        raise NotConst(src(node)[:60])
+                    args, kw = self._args(node, loc)
+                    if fn.attr == "to_bytes" and isinstance(recv, int) and not isinstance(recv, bool):
+                        return self._to_bytes(int(recv), args, kw)
+                    if fn.attr in ("items", "keys", "values") and isinstance(recv, dict) and not args and not kw:
+                        return [tuple(x) if fn.attr == "items" else x for x in getattr(recv, fn.attr)()]
+                    if fn.attr == "get" and isinstance(recv, dict) and 1 <= len(args) <= 2 and not kw:
+                        return recv.get(*args)
+                    raise NotConst(src(node)[:60])
+            name = self._callee(fn, loc)
+            if name is None:
+                raise NotConst(f"call of a module-level name: {src(node)[:60]}")
+            if name == "struct.pack":
+                args, kw = self._args(node, loc)
+                if args and not kw and isinstance(args[0], (str, bytes)):
+                    return _struct.pack(args[0], *args[1:])
+                raise NotConst("struct.pack")
+            if name == "struct.calcsize":
+                args, kw = self._args(node, loc)
+                if len(args) == 1 and not kw and isinstance(args[0], (str, bytes)):
+                    return _struct.calcsize(args[0])
+                raise NotConst("struct.calcsize")
+            if name == "int.to_bytes":
+                args, kw = self._args(node, loc)
+                if args and isinstance(args[0], int) and not isinstance(args[0], bool):
+                    return self._to_bytes(int(args[0]), args[1:], kw)
+                raise NotConst("int.to_bytes")
+            if name in ("bytes", "bytearray", "tuple", "list", "set", "frozenset", "sorted", "reversed", "enumerate", "zip", "dict", "sum", "min", "max") and not any(k.arg is None for k in node.keywords):
+                kw = {k.arg: self._ev(k.value, loc) for k in node.keywords}
+                seqs = [self._seq(a, loc) for a in node.args] if name == "zip" or len(node.args) == 1 else None
+                if name in ("bytes", "bytearray") and not kw:
+                    if not node.args:
+                        return b""
+                    if seqs is not None and all(isinstance(x, int) for x in seqs[0]):
+                        return bytes(seqs[0])  # a bytearray constant is compared by value like bytes
+                elif name in ("tuple", "list", "set", "frozenset") and not kw:
+                    if not node.args:
+                        return {"tuple": tuple, "list": list, "set": set, "frozenset": frozenset}[name]()
+                    if seqs is not None:
+                        return {"tuple": tuple, "list": list, "set": set, "frozenset": frozenset}[name](seqs[0])
+                elif name == "sorted" and seqs is not None and set(kw) <= {"reverse"}:
+                    return sorted(seqs[0], reverse=bool(kw.get("reverse", False)))
+                elif name == "reversed" and seqs is not None and not kw:
+                    return list(reversed(seqs[0]))
+                elif name == "enumerate" and seqs is not None and set(kw) <= {"start"}:
+                    return [tuple(p) for p in enumerate(seqs[0], int(kw.get("start", 0)))]
+                elif name == "enumerate" and len(node.args) == 2 and not kw:
+                    return [tuple(p) for p in enumerate(self._seq(node.args[0], loc), int(self._ev(node.args[1], loc)))]
+                elif name == "zip" and seqs is not None and not kw:
+                    return [tuple(p) for p in zip(*seqs)]
+                elif name == "dict" and not node.args:
+                    return dict(kw)
+                elif name == "dict" and seqs is not None:
+                    v = self._ev(node.args[0], loc) if not isinstance(node.args[0], ast.GeneratorExp) else None
+                    d = dict(v) if isinstance(v, dict) else dict(seqs[0])
+                    d.update(kw)
+                    return d
+                elif name in ("sum", "min", "max") and seqs is not None and not kw and seqs[0] and all(isinstance(x, int) for x in seqs[0]):
+                    return {"sum": sum, "min": min, "max": max}[name](seqs[0])
+                raise NotConst(src(node)[:60])
+            if name == "int" and len(node.args) == 1 and not node.keywords:
+                v = self._ev(node.args[0], loc)
+                if isinstance(v, int):
+                    return int(v)
+                raise NotConst("int(..)")
+            if name == "range" and 1 <= len(node.args) <= 3 and not node.keywords:
+                args, _kw = self._args(node, loc)
+                if all(isinstance(a, int) for a in args):
+                    r = range(*[int(a) for a in args])
+                    if len(r) > _FOLD_LIMIT:  # closed form of CPython's range, nothing is iterated here
+                        raise NotConst("range too large to fold")
+                    return r
+                raise NotConst("range(..)")
+            if name in ("len", "bytes.fromhex") and len(node.args) == 1 and not node.keywords:
+                v = self._seq(node.args[0], loc) if name == "len" and isinstance(node.args[0], ast.GeneratorExp) else self._ev(node.args[0], loc)
+                return const_eval(ast.Call(func=node.func, args=[ast.Constant(value=v)], keywords=[]), None)
+            raise NotConst(f"call: {src(node)[:60]}")
+        # everything else (containers, arithmetic, subscripts / slices): the engine's folding on the folded operands
+        if isinstance(node, (ast.List, ast.Tuple, ast.Set)):
+            vals = []
+            for e in node.elts:
+                if isinstance(e, ast.Starred):
+                    vals.extend(self._seq(e.value, loc))
+                else:
+                    vals.append(self._ev(e, loc))
+            return list(vals) if isinstance(node, ast.List) else tuple(vals) if isinstance(node, ast.Tuple) else set(vals)
+        if isinstance(node, ast.Dict):
+            out = {}
+            for k, v in zip(node.keys, node.values):
+                if k is None:
+                    d = self._ev(v, loc)
+                    if not isinstance(d, dict):
+                        raise NotConst("** of a non-dict")
+                    out.update(d)
+                else:
+                    out[self._ev(k, loc)] = self._ev(v, loc)
+            return out
+        K = lambda x: ast.Constant(value=self._ev(x, loc)) if x is not None else None
+        if isinstance(node, ast.UnaryOp):
+            return const_eval(ast.UnaryOp(op=node.op, operand=K(node.operand)), None)
+        if isinstance(node, ast.BinOp):
+            return const_eval(ast.BinOp(left=K(node.left), op=node.op, right=K(node.right)), None)
+        if isinstance(node, ast.Subscript):
+            sl = node.slice
+            sl = ast.Slice(lower=K(sl.lower), upper=K(sl.upper), step=K(sl.step)) if isinstance(sl, ast.Slice) else K(sl)
+            return const_eval(ast.Subscript(value=K(node.value), slice=sl, ctx=ast.Load()), _no_names)
+        raise NotConst(src(node)[:60])
+
+    @staticmethod
+    def _to_bytes(v, args, kw):
+        names = ("length", "byteorder")
+        a = dict(zip(names, args))
+        if len(args) > 2 or set(a) & set(kw) or not set(kw) <= {"length", "byteorder", "signed"}:
+            raise NotConst("int.to_bytes arguments")
+        a.update(kw)
+        if not isinstance(a.get("length"), int) or a.get("byteorder") not in ("big", "little") or a["length"] > _FOLD_LIMIT:
+            raise NotConst("int.to_bytes: explicit length and byteorder required")
+        return v.to_bytes(int(a["length"]), a["byteorder"], signed=bool(a.get("signed", False)))
+
+
+def _menv(ctx, mod):
+    """the (cached) folding environment of a module"""
+    cache = ctx.__dict__.setdefault("_c17_cache", {})
+    key = ("_c17_menv", mod.name)
+    if key not in cache:
+        cache[key] = _ModEnv(ctx, mod)
+    return cache[key]
 
 
 def run(ctx):
@@ -116,7 +645,8 @@ def run(ctx):
         "guard configuration is yielded exactly once; from_file builds a configuration from a guardrail candidate only "
         "under a truthy unmasked config, draws its candidates (for loop or next(..)) from the validating iterator and goes on "
         "with the next candidate after a metadata-only one (no path from the draw to return / raise except through the "
-        "construction, the next draw or the exhausted iterator); the marker table equals the serialisation of (option, type, "
+        "construction, the next draw or the exhausted iterator); the marker table (a literal, or generated at import time from constants / enum "
+        "members and folded as a module-level constant) equals the serialisation of (option, type, "
         "length) from C_GUARDRAILS_DEF; nothing limits the settings parsed per guard configuration below one per GuardOption "
         "member (interval on the list length / counter tested between two parses); geometry of the scan (window, offsets, bulk reads as numbers / polynomials over the scan "
         "variable) and the unmasking expressions as xor chains; key-length range and checksum formula as a polynomial; "
@@ -124,7 +654,8 @@ def run(ctx):
     )
     rep.not_decided = ["that recovery succeeds for every key/option combination (n-gram statistics)", "checksum collisions",
                        "limits on the number of parsed settings that are not a linear bound on a list length / counter (undecided when one lies between two parses)",
-                       "exhaustiveness of a search whose constructed candidate is a result variable rather than the drawn name (undecided)"]
+                       "exhaustiveness of a search whose constructed candidate is a result variable rather than the drawn name (undecided)",
+                       "a marker table that is not a foldable module-level constant (serialised by package helpers, bound in nested blocks, mutated through methods other than append/extend): table / marker-length obligations undecided"]
     rep.trusted_base = [
         "CPython ast", "networkx dominators", "C-definition parser", "escape-analysis trusted base (C08)",
         "polynomial normal form (csverif.absint.SymPoly)",
@@ -138,9 +669,11 @@ def run(ctx):
         "lemma: a never-decreased count incremented after every parse is >= c0 + j after j parses; `count <= B` between two parses admits B - c0 + 1 parses",
         "semantics of next(IT, None) / filtering comprehension / filter(lambda): first element of IT satisfying the filter, None when exhausted",
         "assumption: io.DEFAULT_BUFFER_SIZE == 8192",
+        "constant folding of module-level tables (_ModEnv): CPython's struct.pack / int.to_bytes / bytes / join / range on constants of the analysed code; dissect.cstruct enum members behave as their integer value (IntEnum-like: .value, .name, E[name], E(value), iteration in definition order without aliases)",
+        "lemma: module-level X.append(E) / X.extend(E) / X += E / `for T in S: X.append(E)` equal the rebinding X = X + [E] / X + [*E] / X + [E for T in S]; module-level tables are not mutated from function bodies",
     ]
     mod = ctx.repo.module("guardrails")
-    env = module_env(mod)
+    env = _menv(ctx, mod)
     r1(ctx)
     r2(ctx)
     r3(ctx, mod, env)
@@ -978,9 +1511,16 @@ def r3(ctx, mod, env):
     ctx.ob("R3", "TABLE", "guardrails.py::C_GUARDRAILS_DEF::enum GuardOption", "members", go == tables.GUARD_OPTIONS, f"GuardOption = {go}")
     s = cd.struct("GuardrailSetting")
     ref = [cdefs_mod.serialise(cd, s, {"option": go.get(o, -1), "type": st_.get(t, -1), "length": ln}) for o, t, ln in tables.GUARD_STARTS]
-    got = _c(ctx.repo.const("guardrails.GUARD_CONFIG_STARTS"), env)
-    got_l = list(got) if isinstance(got, (list, tuple)) else got
-    ctx.ob("R3", "TABLE", "guardrails.py::GUARD_CONFIG_STARTS", "table", got_l == ref and cd.endian == ">", f"marker table {got}; serialisation of USER/COMPUTER/DOMAIN (SHORT,2) and LOCAL_IP (INT,4) from the definition: {ref}")
+    # the table is folded as a module-level constant: literal, or generated at import time from constants / enum members
+    # of the parsed definition by comprehensions and the standard byte serialisers (see _ModEnv)
+    ctx.repo.const("guardrails.GUARD_CONFIG_STARTS")  # anchor
+    got = _c(ast.Name(id="GUARD_CONFIG_STARTS", ctx=ast.Load()), env)
+    if got is None:
+        ctx.undecided("R3", "TABLE", "guardrails.py::GUARD_CONFIG_STARTS", "table",
+                      "the marker table is not a module-level constant the checker can fold (built by statements, by package helpers or from run-time values): its elements cannot be compared")
+    else:
+        got_l = list(got) if isinstance(got, (list, tuple)) else got
+        ctx.ob("R3", "TABLE", "guardrails.py::GUARD_CONFIG_STARTS", "table", got_l == ref and cd.endian == ">", f"marker table {got}; serialisation of USER/COMPUTER/DOMAIN (SHORT,2) and LOCAL_IP (INT,4) from the definition: {ref}")
     f = ctx.repo.func("guardrails.iter_guardrail_configs")
     _prep(ctx, f)
     _r3_settings_bound(ctx, f, mod, env)
@@ -1193,7 +1733,7 @@ def r4(ctx, mod, env):
     num = _Num(ctx, f, env)
     bs, gs = _c(mod.consts.get("BEACON_CONFIG_PATCH_SIZE"), env), _c(mod.consts.get("GUARD_PATCH_SIZE"), env)
     ctx.ob("R4", "TABLE", "guardrails.py::constants", "patch sizes", (bs, gs) == (BEACON_AREA, GUARD_AREA), f"BEACON_CONFIG_PATCH_SIZE={bs} GUARD_PATCH_SIZE={gs} ({BEACON_AREA} / {GUARD_AREA})")
-    table = _c(mod.consts.get("GUARD_CONFIG_STARTS"), env)
+    table = _c(ast.Name(id="GUARD_CONFIG_STARTS", ctx=ast.Load()), env) if "GUARD_CONFIG_STARTS" in mod.consts else None
     table = list(table) if isinstance(table, (list, tuple)) and table and all(isinstance(x, bytes) for x in table) else None
     if table is None:
         ctx.undecided("R4", "AGREE", f, "marker length", "GUARD_CONFIG_STARTS is not a constant table of byte strings")
@@ -1426,7 +1966,7 @@ def _range_values(e, ev):
 
 def r5(ctx):
     mod = ctx.repo.module("guardrails")
-    menv = module_env(mod)
+    menv = _menv(ctx, mod)
     f = ctx.repo.func("guardrails.find_xor_key_candidates")
     _prep(ctx, f)
     num = _Num(ctx, f, menv)
@@ -1637,8 +2177,31 @@ def _r5_checksum(ctx, menv):
 
 
 # ================================================================================================================== R6
+def _folded_length_facts(ctx, esc):
+    """Length fact for the escape analysis (device 6): a module-level container constant that is neither a parameter nor
+    assigned in the function has the length of its folded value - also when it is *generated* at import time (see
+    _ModEnv; rebound / mutated containers are not folded).  The engine itself knows the length of literal tables and of
+    unfiltered comprehensions over them only."""
+    orig = esc._min_len
+
+    def _min_len(f, base, st, at=None):
+        b = strip_cast(base)
+        if isinstance(b, ast.Name) and b.id in f.module.consts and b.id not in params(f.node) and not assignments_to(f.node, b.id):
+            v = _c(b, _menv(ctx, f.module))  # the value after all module-level statements (the engine reads the last assignment only)
+            if isinstance(v, (list, tuple, bytes, str)):
+                fact = f"len({b.id}) == {len(v)} (folded module constant)"
+                if fact not in esc.facts_used:
+                    esc.facts_used.append(fact)
+                return len(v)
+        return orig(f, base, st, at=at)
+
+    esc._min_len = _min_len
+
+
 def r6(ctx):
-    esc = effects.check_escape(ctx, "R6", ["guardrails.iter_guardrail_configs_with_beacon"], {"ValueError"})
+    esc = effects.Escape(ctx)
+    _folded_length_facts(ctx, esc)
+    esc = effects.check_escape(ctx, "R6", ["guardrails.iter_guardrail_configs_with_beacon"], {"ValueError"}, esc=esc)
     for fq in ("guardrails.iter_guardrail_configs",):
         f = ctx.repo.func(fq)
         for st in statements(f.node):
